@@ -21,7 +21,7 @@ import (
 type batchCall struct {
 	Kind   string   // get put delete append increment
 	Row    string
-	Script []string // per attempt: ok fatal retry nsre dead-before dead-after ; beyond the script: ok
+	Script []string // per attempt: ok fatal retry nsre dead-before dead-after abort; beyond the script: ok
 }
 
 type batchCase struct {
@@ -55,7 +55,9 @@ func (b batchCase) matrix() string {
 	return fmt.Sprintf("%d|%s|%s|%s", len(b.Bounds), b.Invalid, b.Trigger, strings.Join(cs, ","))
 }
 
-var batchOutcomes = []string{"ok", "ok", "fatal", "retry", "nsre", "dead-before", "dead-after"}
+// "abort" is a per-action exception of the server-fatal class: the connection
+// stays usable, other actions of the same multi-request are answered normally.
+var batchOutcomes = []string{"ok", "ok", "fatal", "retry", "nsre", "dead-before", "dead-after", "abort"}
 
 func genBatchCase(r *rand.Rand, maxCalls int) batchCase {
 	b := batchCase{Seed: r.Int63(), Servers: 1 + r.Intn(3), Queue: []int{1, 2, 5, 100}[r.Intn(4)],
@@ -257,6 +259,8 @@ func runBatchCase(b batchCase, tag string) *batchRun {
 				go func() { time.Sleep(40 * time.Millisecond); doCancel() }()
 			}
 			return &sim.Exc{Class: sim.ExcTooBusy}
+		case "abort":
+			return &sim.Exc{Class: sim.ExcAborted}
 		case "nsre":
 			if doDrop {
 				cl.DropTable("t")
